@@ -332,7 +332,8 @@ class Desugarer:
             r = B.local(self.ret_ty(clos))
             d = B.local('isize')
             unreachable = B.block([], {'k': 'unreachable', 'span': span, 'exp': True})
-            yes = B.block([assign(n_out, use(mv(r)), span)], goto(after, span))
+            yes = B.block([assign(n_out, agg_variant(OPT, 'Some', [mv(r, *downcast('Some', 1, OPT))]), span)],
+                          goto(after, span))
             test = B.block([assign(d, {'k': 'discr', 'place': P(r), 'adt': OPT, 'variants': OPTION_VARIANTS}, span)],
                            {'k': 'switch', 'discr': mv(d), 'targets': [[0, entry], [1, yes]],
                             'otherwise': unreachable, 'span': span, 'exp': True})
@@ -415,7 +416,8 @@ class Desugarer:
             exit_bb = B.block([assign_place(dest, agg_variant(OPT, 'None', []), span)], goto(target, span))
         else:  # find_map
             r = B.local(self.ret_ty(clos))
-            found = B.block([assign_place(dest, use(mv(r)), span)], goto(target, span))
+            found = B.block([assign_place(dest, agg_variant(OPT, 'Some', [mv(r, *downcast('Some', 1, OPT))]), span)],
+                            goto(target, span))
             st, sw = self.discr_switch(B, r, OPT, OPTION_VARIANTS, [[0, entry], [1, found]], span)
             test = B.block(st, sw)
             call = self.splice(B, clos, [mv(x)], P(r), test, span)
